@@ -186,6 +186,23 @@ fn real_topic(t: &str, tlen: Option<u64>) -> String {
     }
 }
 
+/// The WAL files of one data directory in name order (names are creation times in ms; recovery
+/// scans them in this order). The position in this list + 1 is the file's ordinal: the design
+/// model WalrusBlocks identifies files by it.
+pub fn wal_files_in(root: &Path) -> Vec<String> {
+    let mut names: Vec<String> = match std::fs::read_dir(root) {
+        Ok(d) => d
+            .filter_map(|e| e.ok())
+            .filter(|e| e.file_type().map(|t| !t.is_dir()).unwrap_or(true))
+            .filter_map(|e| e.file_name().to_str().map(|s| s.to_string()))
+            .filter(|n| !n.is_empty() && n.chars().all(|c| c.is_ascii_digit()))
+            .collect(),
+        Err(_) => Vec::new(),
+    };
+    names.sort_by(|a, b| (a.len(), a.as_str()).cmp(&(b.len(), b.as_str())));
+    names
+}
+
 fn err_kind(e: &std::io::Error) -> String {
     format!("{:?}", e.kind())
 }
@@ -277,7 +294,22 @@ impl Run {
             Some((b, off)) => json!([b.id, off, b.limit]),
             None => json!([]),
         };
+        // FileStateTracker (process-global), restricted to this instance's files, by file ordinal:
+        // [locked, checkpointed, total, fully_allocated]; [] = not registered
+        let root = w.__verif_root();
+        let views = Walrus::__verif_file_views();
+        let fs: Vec<Value> = wal_files_in(&root)
+            .iter()
+            .map(|name| {
+                let path = root.join(name).to_string_lossy().into_owned();
+                match views.iter().find(|f| f.path == path) {
+                    Some(f) => json!([f.locked, f.checkpointed, f.total, f.fully_allocated]),
+                    None => json!([]),
+                }
+            })
+            .collect();
         json!({
+            "fs": fs,
             "ci": v.cur_block_idx, "co": v.cur_block_offset,
             "ch": v.chain.iter().map(|b| json!([b.id, b.used])).collect::<Vec<_>>(),
             "tb": v.tail_block_id.min(1 << 30), "to": v.tail_offset.min(1 << 30),
@@ -322,7 +354,14 @@ impl Run {
                 .unwrap_or_default();
             // only files below this behaviour's scratch area concern this behaviour
             if Path::new(&path).starts_with(&self.base) {
-                self.emit(json!({"ev":"reclaim","file":fname,"stored":stored}));
+                // ordinal of the file among the WAL files of its directory (0 = not found)
+                let fo = Path::new(&path)
+                    .parent()
+                    .map(|d| wal_files_in(d))
+                    .and_then(|l| l.iter().position(|n| *n == fname))
+                    .map(|p| p + 1)
+                    .unwrap_or(0);
+                self.emit(json!({"ev":"reclaim","file":fname,"fo":fo,"stored":stored}));
             }
         }
     }
